@@ -328,6 +328,8 @@ func anyCmp(x, y any) int {
 		return cmp.Compare(a, y.(int64))
 	case uint64:
 		return cmp.Compare(a, y.(uint64))
+	case SK:
+		return cmp.Compare(a, y.(SK))
 	case HX:
 		b := y.(HX)
 		if a.P != b.P {
